@@ -6,6 +6,7 @@ WT=/tmp/wt_matrix
 git -C /repo worktree remove --force $WT 2>/dev/null
 git -C /repo worktree add -q --detach $WT HEAD || exit 2
 OUT=seeded/MATRIX.md
+rm -rf /var/tmp/evidence_keep; cp -r evidence /var/tmp/evidence_keep      # evidence must describe runs on /repo itself
 echo "| seed | property | applies | own check exit | VIOLATION lines |" > $OUT
 echo "|---|---|---|---|---|" >> $OUT
 for d in seeded/*/; do
@@ -20,4 +21,5 @@ for d in seeded/*/; do
   fi
 done
 git -C /repo worktree remove --force $WT
+cp /var/tmp/evidence_keep/*.json evidence/ && rm -rf /var/tmp/evidence_keep
 cat $OUT
